@@ -561,6 +561,14 @@ func checkAndPropagateArgs(
 	var defineArgIdx int
 	var argIdx int
 
+	// the arguments are evaluated already: an error from here is about this
+	// call and belongs to the line the call starts on
+	defer func() {
+		if err != nil && m.ctx.IsCheckRound() {
+			m.parser.ErrorRow = m.callRow
+		}
+	}()
+
 	sortedDfineArgs := prioritizeDefineArgNames(methodT.GetDefineArgs())
 	sortedArgTs := prioritizeArgTs(argTs)
 
